@@ -42,7 +42,17 @@ func (i *IRCServer) cmdServerNick(s *Session, reply *Replyctx, msg *irc.Message)
 
 	// s.LastActivity is the timestamp of the robust.Message which
 	// contains the server_NICK command we’re processing.
-	i.createSessionLocked(id, "", s.LastActivity)
+	if err := i.createSessionLocked(id, "", s.LastActivity); err != nil {
+		// The session limit is reached: no session was created, so there is
+		// nothing to fill in (dereferencing i.sessions[id] would crash the
+		// state machine on every node).
+		i.sendServices(reply, &irc.Message{
+			Prefix:  i.ServerPrefix,
+			Command: irc.ERR_UNAVAILRESOURCE,
+			Params:  []string{"*", msg.Params[0], "Nick/channel is temporarily unavailable: " + err.Error()},
+		})
+		return
+	}
 	ss := i.sessions[id]
 	ss.Nick = msg.Params[0]
 	i.nicks[NickToLower(ss.Nick)] = ss
